@@ -1,5 +1,5 @@
 """Verdict plumbing: collects violations, applies known findings, writes evidence, exits."""
-import json, os, sys, time
+import functools, json, os, sys, threading, time
 
 from . import findings
 
@@ -11,8 +11,19 @@ if os.environ.get("VERIF_REPO"):
     EVID = os.path.join(VERIF, "evidence", "alt")
 
 
+def _locked(fn):
+    @functools.wraps(fn)
+    def w(self, *a, **k):
+        with self._lock:
+            return fn(self, *a, **k)
+    return w
+
+
 class Report:
+    """Mutators are serialised by a lock so that a check may run independent halves in threads."""
+
     def __init__(self, prop, tier, seed, level="model_checking"):
+        self._lock = threading.RLock()
         self.prop, self.tier, self.seed, self.level = prop, tier, seed, level
         self.t0 = time.time()
         self.violations = []   # (key, what, replay_obj)
@@ -24,11 +35,13 @@ class Report:
         self._distinct = set()
 
     # ---- coverage accounting -------------------------------------------------
+    @_locked
     def add_tlc(self, name, res, note=""):
         self.cov["states"] += res.distinct
         self.cov["transitions"] += res.generated
         self.cov["tlc_runs"].append(dict(name=name, note=note, **res.brief()))
 
+    @_locked
     def add_cases(self, cases, nontrivial=lambda c: True, validated=True):
         """cases: list of JSON-able case descriptions actually executed against the code."""
         for c in cases:
@@ -40,19 +53,23 @@ class Report:
                 self._distinct.add(hash(k))
         self.cov["distinct_nontrivial"] = len(self._distinct)
 
+    @_locked
     def sample(self, obj, limit=6):
         if len(self.cov["samples"]) < limit:
             self.cov["samples"].append(obj)
 
+    @_locked
     def self_test(self, name, ok, detail=""):
         self.cov["self_tests"].append(dict(name=name, ok=bool(ok), detail=detail))
         if not ok:
             self.infra.append("self-test failed: %s %s" % (name, detail))
 
     # ---- verdicts -------------------------------------------------------------
+    @_locked
     def violation(self, key, what, replay):
         self.violations.append((key, what, replay))
 
+    @_locked
     def infra_error(self, msg):
         self.infra.append(msg)
 
